@@ -8,7 +8,7 @@
    Definitions only; StrRunProofs.v relates [num_of_f64] to Num.to_isize / is_integral. *)
 From Coq Require Import String.
 From Coq Require Import List NArith ZArith Bool Arith.
-From Coq Require Import Strings.Byte Floats.SpecFloat.
+From Coq Require Import Strings.Byte Floats.SpecFloat Uint63.
 From YV Require Import Show Wire Utf8 Index StrFns StrSpec Num NumText.
 Import ListNotations.
 Local Open Scope nat_scope.
@@ -635,20 +635,22 @@ Definition batch_outcomes (which : bool) (w : string) : list outcome :=
 Definition run_mech_w (w : string) : string := show_sep "|" show_outcome (batch_outcomes true w).
 Definition run_spec_w (w : string) : string := show_sep "|" show_outcome (batch_outcomes false w).
 
-(* ---------- digests: FNV-1a (64 bit) of the canonical bytes of an outcome ---------- *)
+(* ---------- digests: FNV-1a style (mod 2^63) of the canonical bytes of an outcome ---------- *)
 Definition canon (o : outcome) : list byte :=
   match o with
   | Ok ls => ("O"%byte :: concat (map (fun l => l ++ [x0a])%list ls))%list
   | Error e => bs (kind_name e ++ ":" ++ err_msg e)
   end.
 
-Definition dg_init : Z := 14695981039346656037%Z.
-Definition dg_step (h : Z) (b : byte) : Z :=
-  ((Z.lxor h (Z.of_N (Byte.to_N b))) * 1099511628211 mod 18446744073709551616)%Z.
-Definition dg (h : Z) (l : list byte) : Z := fold_left dg_step l h.
-Definition dg_outcome (o : outcome) : Z := dg dg_init (canon o).
+(* machine integers (Uint63, arithmetic mod 2^63) only here, for speed; nothing is proved about the digest *)
+Definition dg_init : int := 2166136261%uint63.
+Definition dg_step (h : int) (b : byte) : int :=
+  Uint63.mul (Uint63.lxor h (Uint63.of_Z (Z.of_N (Byte.to_N b)))) 1099511628211%uint63.
+Definition dg (h : int) (l : list byte) : int := fold_left dg_step l h.
+Definition dg_outcome (o : outcome) : Z := Uint63.to_Z (dg dg_init (canon o)).
 (* chained over a batch: each outcome is followed by one FF byte *)
-Definition dg_chain (l : list outcome) : Z := fold_left (fun h o => dg_step (dg h (canon o)) xff) l dg_init.
+Definition dg_chain (l : list outcome) : Z :=
+  Uint63.to_Z (fold_left (fun h o => dg_step (dg h (canon o)) xff) l dg_init).
 
 Fixpoint count_diff (a b : list outcome) : nat :=
   match a, b with
